@@ -31,6 +31,8 @@ pub use crate::source::verif_probe as source;
 
 /// Wrappers around `pub(crate)` items, one file per group of properties.
 pub mod clk;
+pub mod sel;
+pub mod src2;
 pub mod ke;
 pub mod misc;
 pub mod pkt;
